@@ -24,7 +24,7 @@ ASSUMPTIONS = [
     "_repr_html_ object, metadata node",
 ]
 
-IL_FULL = [T("a"), T("x\ny"), ["N", 7], H("<i>h</i>"), R("<u>r</u>"), M, T("e\n"), T(""),
+IL_FULL = [T("a"), T("x\ny"), ["N", 7], H("<i>h</i>"), R("<u>r</u>"), M, T("e\n"), T(""), ["TS", "sub"],
            E("style", False, [T("p"), T("q")])]
 S_LEAVES = [E("script", True, [T("a<b")]), E("script", True, [T("p"), T("q")]),
             E("style", True, [])]
